@@ -436,6 +436,186 @@ fn c06_vec_znx_fill_uniform_ref__n2_size2() {
 }
 
 // ------------------------------------------------------------------------------------------------
+// C01 / C10: tail-cut (rejection) sampling of the error distribution.  The draws come from a scripted source (a `Distribution<f64>` handing out nondeterministic finite
+// values, logged); the SPEC is rejection sampling itself: coefficient i receives round(d) where d is the FIRST draw, from where coefficient i-1 stopped, with |d| <= bound,
+// and every draw skipped before it has |d| > bound.  Hence no error exceeds the bound (C01) and every implementation that meets the spec consumes the same draws and
+// produces the same values (C10: the families agree sample for sample).  Bounded: at most REJECT_MAX rejected draws in total (the loop is unbounded in the source).
+// ------------------------------------------------------------------------------------------------
+mod c01_tailcut {
+    use crate::reference::znx::{znx_add_dist_f64_ref, znx_add_normal_f64_ref, znx_fill_dist_f64_ref, znx_fill_normal_f64_ref};
+    use crate::source::Source;
+    use rand_distr::Distribution;
+
+    const LOG_MAX: usize = 6;
+    const REJECT_MAX: usize = 2;
+    static mut LOG: [f64; LOG_MAX] = [0.0; LOG_MAX];
+    static mut LOG_LEN: usize = 0;
+    static mut REJECTS: usize = 0;
+    static mut BOUND: f64 = 0.0;
+    // a draw is 0.0 + SCALE * (logged value): SCALE = 1 for the scripted distribution, sigma for Normal::new(0, sigma) over the scripted standard normal
+    static mut SCALE: f64 = 1.0;
+    fn draw_of(z: f64) -> f64 {
+        unsafe { 0.0 + SCALE * z }
+    }
+
+    fn next_draw() -> f64 {
+        unsafe {
+            let x: f64 = kani::any();
+            kani::assume(x.is_finite() && x.abs() <= 1.0e3);
+            if draw_of(x).abs() > BOUND {
+                kani::assume(REJECTS < REJECT_MAX);
+                REJECTS += 1;
+            }
+            assert!(LOG_LEN < LOG_MAX, "C01:harness log large enough");
+            LOG[LOG_LEN] = x;
+            LOG_LEN += 1;
+            x
+        }
+    }
+    struct Script;
+    impl Distribution<f64> for Script {
+        fn sample<R: rand::Rng + ?Sized>(&self, _rng: &mut R) -> f64 {
+            next_draw()
+        }
+    }
+    // Normal<f64>::sample is mean + std_dev * (a StandardNormal draw): the scripted source replaces the standard normal (the ziggurat sampler on the ChaCha stream)
+    fn ziggurat_stub<R: rand::Rng + ?Sized, P, Z>(_rng: &mut R, _symmetric: bool, _x_tab: &'static [f64; 257], _f_tab: &'static [f64; 257], _pdf: P, _zero_case: Z) -> f64
+    where
+        P: FnMut(f64) -> f64,
+        Z: FnMut(&mut R, f64) -> f64,
+    {
+        next_draw()
+    }
+
+    // the spec, replayed on the log: returns the position after coefficient i's accepted draw, checks what was skipped and what was stored
+    fn check_coeff(pos: usize, old: i64, new: i64, add: bool) -> usize {
+        unsafe {
+            let mut k = pos;
+            while k < LOG_LEN && draw_of(LOG[k]).abs() > BOUND {
+                k += 1;
+            }
+            assert!(k < LOG_LEN, "C01:every coefficient ends on an accepted draw");
+            let d = draw_of(LOG[k]);
+            assert!(d.abs() <= BOUND, "C01:accepted draw within the tail cut");
+            let want = if add { old.wrapping_add(d.round() as i64) } else { d.round() as i64 };
+            assert!(new == want, "C01:coefficient is the rounded first in-bound draw");
+            k + 1
+        }
+    }
+    fn setup() -> f64 {
+        // a tight tail cut (bound == sigma is admissible: NoiseInfos::new only asks bound >= sigma)
+        let bound: f64 = 3.2;
+        unsafe {
+            BOUND = bound;
+            SCALE = 1.0;
+            LOG_LEN = 0;
+            REJECTS = 0;
+        }
+        bound
+    }
+    fn finish(old: [i64; 2], res: [i64; 2], add: bool) {
+        let p1 = check_coeff(0, old[0], res[0], add);
+        let p2 = check_coeff(p1, old[1], res[1], add);
+        unsafe {
+            assert!(p2 == LOG_LEN, "C01:no draw consumed beyond the accepted ones");
+        }
+    }
+
+    #[kani::proof]
+    #[kani::unwind(8)]
+    #[kani::stub(poulpy_hal::source::Source::new, super::source_new_stub)]
+    fn c01_tailcut_fill_dist__n2() {
+        let bound = setup();
+        let mut source = Source::new([0u8; 32]);
+        let mut res: [i64; 2] = [kani::any(), kani::any()];
+        kani::assume(res[0].unsigned_abs() <= 1 << 62 && res[1].unsigned_abs() <= 1 << 62);
+        let old = res;
+        znx_fill_dist_f64_ref(&mut res, Script, bound, &mut source);
+        finish(old, res, false);
+    }
+
+    #[kani::proof]
+    #[kani::unwind(8)]
+    #[kani::stub(poulpy_hal::source::Source::new, super::source_new_stub)]
+    fn c01_tailcut_add_dist__n2() {
+        let bound = setup();
+        let mut source = Source::new([0u8; 32]);
+        let mut res: [i64; 2] = [kani::any(), kani::any()];
+        kani::assume(res[0].unsigned_abs() <= 1 << 62 && res[1].unsigned_abs() <= 1 << 62);
+        let old = res;
+        znx_add_dist_f64_ref(&mut res, Script, bound, &mut source);
+        finish(old, res, true);
+    }
+
+    #[kani::proof]
+    #[kani::unwind(8)]
+    #[kani::stub(poulpy_hal::source::Source::new, super::source_new_stub)]
+    #[kani::stub(rand_distr::utils::ziggurat, ziggurat_stub)]
+    fn c01_tailcut_fill_normal__n2() {
+        let bound = setup();
+        unsafe { SCALE = 3.2; }
+        let mut source = Source::new([0u8; 32]);
+        let mut res: [i64; 2] = [kani::any(), kani::any()];
+        kani::assume(res[0].unsigned_abs() <= 1 << 62 && res[1].unsigned_abs() <= 1 << 62);
+        let old = res;
+        znx_fill_normal_f64_ref(&mut res, 3.2, bound, &mut source);
+        finish(old, res, false);
+    }
+
+    #[kani::proof]
+    #[kani::unwind(8)]
+    #[kani::stub(poulpy_hal::source::Source::new, super::source_new_stub)]
+    #[kani::stub(rand_distr::utils::ziggurat, ziggurat_stub)]
+    fn c01_tailcut_add_normal__n2() {
+        let bound = setup();
+        unsafe { SCALE = 3.2; }
+        let mut source = Source::new([0u8; 32]);
+        let mut res: [i64; 2] = [kani::any(), kani::any()];
+        kani::assume(res[0].unsigned_abs() <= 1 << 62 && res[1].unsigned_abs() <= 1 << 62);
+        let old = res;
+        znx_add_normal_f64_ref(&mut res, 3.2, bound, &mut source);
+        finish(old, res, true);
+    }
+
+    // the NTT120 family has its own sampling loop (i128 accumulators): the SAME spec, hence the same values as the FFT64 family (whose vec_znx / vec_znx_big variants all
+    // funnel into znx_add_normal_f64_ref above) for the same draws.  k = base2k: the error goes to limb 0 at scale 2^0.
+    fn exp2_stub(x: f64) -> f64 {
+        assert!(x == 0.0, "C10:harness shape has scale 2^0");
+        1.0
+    }
+    fn log2_stub(x: f64) -> f64 {
+        // only compared against 64 after ceil(): any finite value below 64 for the harness bound
+        assert!(x == 3.2);
+        1.6780719051126376
+    }
+    #[kani::proof]
+    #[kani::unwind(8)]
+    #[kani::stub(poulpy_hal::source::Source::new, super::source_new_stub)]
+    #[kani::stub(rand_distr::utils::ziggurat, ziggurat_stub)]
+    #[kani::stub(f64::exp2, exp2_stub)]
+    #[kani::stub(f64::log2, log2_stub)]
+    fn c10_tailcut_ntt120_big_add_normal__n2() {
+        use crate::ntt120::NTT120Ref;
+        use crate::reference::ntt120::vec_znx_big::ntt120_vec_znx_big_add_normal_ref;
+        use poulpy_hal::layouts::{NoiseInfos, VecZnxBig, ZnxView, ZnxViewMut};
+        let bound = setup();
+        unsafe { SCALE = 3.2; }
+        let mut source = Source::new([0u8; 32]);
+        let mut big = VecZnxBig::<_, NTT120Ref>::alloc(2, 1, 1);
+        let old: [i64; 2] = [kani::any(), kani::any()];
+        kani::assume(old[0].unsigned_abs() <= 1 << 62 && old[1].unsigned_abs() <= 1 << 62);
+        big.at_mut(0, 0)[0] = old[0] as i128;
+        big.at_mut(0, 0)[1] = old[1] as i128;
+        ntt120_vec_znx_big_add_normal_ref::<_, NTT120Ref>(17, &mut big, 0, NoiseInfos { k: 17, sigma: 3.2, bound }, &mut source);
+        let r0: i128 = big.at(0, 0)[0];
+        let r1: i128 = big.at(0, 0)[1];
+        assert!(r0 >= i64::MIN as i128 && r0 <= i64::MAX as i128 && r1 >= i64::MIN as i128 && r1 <= i64::MAX as i128, "C10:no spurious high part");
+        finish(old, [r0 as i64, r1 as i64], true);
+    }
+}
+
+
+// ------------------------------------------------------------------------------------------------
 // C07 — NTT120 scalar conversions (the prime set the backend uses: Primes30), per coefficient (nn = 1), full i64 / u64 domain.
 // Loops over k < 4 are constant => fully unwound => complete.
 // ------------------------------------------------------------------------------------------------
@@ -948,7 +1128,7 @@ mod c18_wrappers {
 mod c18_compound {
     use super::fmt_stub;
     use poulpy_core::layouts::{
-        GGLWE, GGLWECompressed, GGLWECompressedSeed, GGLWECompressedSeedMut, GGLWEInfos, GGSW, GGSWInfos, GLWEAutomorphismKey, GLWEInfos, GLWEPublicKey, GLWESwitchingKey, GLWESwitchingKeyDegrees,
+        GGLWE, GGLWECompressed, GGLWECompressedSeed, GGLWECompressedSeedMut, GGLWEInfos, GGSW, GGSWInfos, GLWEAutomorphismKey, GLWEAutomorphismKeyCompressed, GLWEInfos, GLWEPublicKey, GLWESwitchingKey, GLWESwitchingKeyDegrees,
         GLWESwitchingKeyDegreesMut, GetGaloisElement, LWEInfos, SetGaloisElement,
     };
     use poulpy_core::{Distribution, GetDistribution, GetDistributionMut};
@@ -1040,6 +1220,42 @@ mod c18_compound {
         } else {
             assert!(r.is_ok() && g.p() == -3 && g.base2k().0 == 9, "C18:complete stream accepted, metadata from the stream");
         }
+    }
+
+    // round trip of the signed scalar header of the automorphism keys (standard and seed-compressed): EVERY Galois element p (all of i64) written by write_to is what
+    // read_from stores (a narrower or unsigned header word would lose negative elements such as -1, the conjugation / packing key)
+    #[kani::proof]
+    #[kani::unwind(10)]
+    #[kani::stub(alloc::fmt::format, fmt_stub)]
+    fn c18_automorphism_key_round_trip_p() {
+        let p: i64 = kani::any();
+        let mut src: GLWEAutomorphismKey<Vec<u8>> = GLWEAutomorphismKey::alloc(2u32.into(), 9u32.into(), 18u32.into(), 1u32.into(), 1u32.into(), 1u32.into());
+        src.set_p(p);
+        let mut stream: Vec<u8> = Vec::new();
+        assert!(src.write_to(&mut stream).is_ok());
+        let mut g: GLWEAutomorphismKey<Vec<u8>> = GLWEAutomorphismKey::alloc(2u32.into(), 9u32.into(), 18u32.into(), 1u32.into(), 1u32.into(), 1u32.into());
+        let mut cur = Cursor::new(&stream[..]);
+        let r = g.read_from(&mut cur);
+        assert!(r.is_ok(), "C18:round trip accepted");
+        assert!(g.p() == p, "C18:round trip reproduces the Galois element");
+        assert!(cur.position() as usize == stream.len(), "C18:round trip consumes the whole stream");
+    }
+
+    #[kani::proof]
+    #[kani::unwind(40)]
+    #[kani::stub(alloc::fmt::format, fmt_stub)]
+    fn c18_automorphism_key_compressed_round_trip_p() {
+        let p: i64 = kani::any();
+        let mut src: GLWEAutomorphismKeyCompressed<Vec<u8>> = GLWEAutomorphismKeyCompressed::alloc(2u32.into(), 9u32.into(), 18u32.into(), 1u32.into(), 1u32.into(), 1u32.into());
+        src.set_p(p);
+        let mut stream: Vec<u8> = Vec::new();
+        assert!(src.write_to(&mut stream).is_ok());
+        let mut g: GLWEAutomorphismKeyCompressed<Vec<u8>> = GLWEAutomorphismKeyCompressed::alloc(2u32.into(), 9u32.into(), 18u32.into(), 1u32.into(), 1u32.into(), 1u32.into());
+        let mut cur = Cursor::new(&stream[..]);
+        let r = g.read_from(&mut cur);
+        assert!(r.is_ok(), "C18:round trip accepted");
+        assert!(g.p() == p, "C18:round trip reproduces the Galois element");
+        assert!(cur.position() as usize == stream.len(), "C18:round trip consumes the whole stream");
     }
 
     #[kani::proof]
